@@ -65,6 +65,9 @@ def c08_cases():
         # the call arrives while the supervisor is inside start() of a
         # replacement worker (its fork takes 1 s): listed, no process yet
         'midfork': st.sampled_from([False, False, False, True]),
+        # the task feeder is in the middle of a lazily produced imap whose
+        # input stalls when the call arrives
+        'lazy': st.sampled_from([False, False, True]),
     })
 
 
@@ -101,6 +104,10 @@ def execute_c08(case):
     queued = case['queued']
     for i in range(queued):
         steps.append(['apply', 'q%d' % i, [['sleep', 0.05], ['ret', i]], {}])
+    lazy = bool(case.get('lazy')) and threads
+    if lazy:
+        steps.append(['imap_lazy', 'lz', [['retx', 1]], 2, 6.0, 2,
+                      'imap' if case['procs'] % 2 else 'imap_unordered'])
     action = case['action']
     if action in ('terminate_job', 'sigterm', 'hardlimit') and not running:
         action = 'terminate'
@@ -147,7 +154,9 @@ def execute_c08(case):
         labels.append('supervisor_replacing')
     if midfork:
         labels.append('replacement_fork_in_flight')
-    nontrivial = bool(running)
+    if lazy:
+        labels.append('feeder_inside_lazy_imap')
+    nontrivial = bool(running) or lazy
     if running:
         labels.append('worker_in_task')
     if 'stubborn' in running:
